@@ -91,6 +91,9 @@ def run_c04(ctx):
             ctx.sample({'kind': 'Value', 'cfg': cfg, 'doc_hex': hx(d)})
     for cfg in ctx.cfgs:
         ctx.violations += P.judge_typed_budget(ctx, cfg)      # long flat collections of every container/variant kind read back
+        # data read back item by item from one Deserializer (a stream of serialised values, some rejected by a lenient reader): what is read back must not
+        # depend on the types requested before
+        ctx.violations += P.judge_state_isolation(ctx, cfg, 800 if ctx.tier == 'quick' else 8000)
     try:
         from checks import typed as T
         if hasattr(T, 'run_c04_typed'):
